@@ -610,4 +610,60 @@ theorem sulfuric_L2_example :
       = UV.si (sulfuricAcidDensityUV (1/2 : Rat) (UV.mk 300 1 Tdim') (UV.mk 1 1 Tdim') (UV.mk 1 1 [0,1,0,0,0,0,0]) (UV.mk 1 1 [1,0,0,0,0,0,0])) := by
   decide +kernel
 
+
+/-! ## density_from_concentration: first-convergence characterisation; mobility in the quantity algebra -/
+
+
+/-- the iterates of `density_from_concentration`: ρ₀ = start value, ρₙ₊₁ = rho_cb(conc·M/ρₙ) -/
+noncomputable def dfcSeq (rhoCb : ℝ → ℝ) (conc M rho0 : ℝ) : Nat → ℝ
+  | 0 => rho0
+  | n + 1 => rhoCb (conc * M / dfcSeq rhoCb conc M rho0 n)
+
+theorem pyAbs_eq_abs (x : ℝ) : pyAbs x = |x| := by
+  unfold pyAbs
+  split
+  · rename_i h; rw [abs_of_neg]; simpa using h
+  · rename_i h; rw [abs_of_nonneg]; simpa using h
+
+theorem dfcIter_first_convergence {rhoCb : ℝ → ℝ} {conc M atol rho0 : ℝ} {maxiter n : Nat}
+    (hn : n ≤ maxiter)
+    (hbefore : ∀ m, 1 ≤ m → m < n → atol < |dfcSeq rhoCb conc M rho0 m - dfcSeq rhoCb conc M rho0 (m - 1)|)
+    (hat : |dfcSeq rhoCb conc M rho0 n - dfcSeq rhoCb conc M rho0 (n - 1)| ≤ atol) :
+    ∀ d i fuel, i + d + 1 = n → d + 1 ≤ fuel →
+      dfcIter rhoCb conc M atol maxiter fuel (dfcSeq rhoCb conc M rho0 i) i = .ok (dfcSeq rhoCb conc M rho0 n) := by
+  intro d
+  induction d with
+  | zero =>
+    intro i fuel hi hf
+    obtain ⟨f, rfl⟩ : ∃ f, fuel = f + 1 := ⟨fuel - 1, by omega⟩
+    have hin : i + 1 = n := by omega
+    simp only [dfcIter, pyAbs_eq_abs]
+    rw [if_neg (by omega)]
+    have : dfcSeq rhoCb conc M rho0 (i + 1) = rhoCb (conc * M / dfcSeq rhoCb conc M rho0 i) := rfl
+    rw [← this, hin]
+    have h2 : n - 1 = i := by omega
+    rw [h2] at hat
+    rw [if_neg (not_lt.mpr hat)]
+  | succ d ih =>
+    intro i fuel hi hf
+    obtain ⟨f, rfl⟩ : ∃ f, fuel = f + 1 := ⟨fuel - 1, by omega⟩
+    simp only [dfcIter, pyAbs_eq_abs]
+    rw [if_neg (by omega)]
+    have hs : dfcSeq rhoCb conc M rho0 (i + 1) = rhoCb (conc * M / dfcSeq rhoCb conc M rho0 i) := rfl
+    rw [← hs]
+    have hb := hbefore (i + 1) (by omega) (by omega)
+    rw [show i + 1 - 1 = i by omega] at hb
+    rw [if_pos hb]
+    exact ih (i + 1) f (by omega) (by omega)
+
+
+theorem mobilityU_L2 (δ f z τ k c j kk : ℝ) (Dd Cd Jd Kd Td : Units.Dims) :
+    UV.si (mobilityU (α := UV ℝ) (UV.mk δ f Dd) (UV.num z) (UV.mk τ k Td) (UV.mk 1 c Cd) (UV.mk 1 j Jd) (UV.mk 1 kk Kd))
+      = some (mobilityU (δ * f) z (τ * k) c j kk,
+              Units.Dims.sub (Units.Dims.add Dd Cd) (Units.Dims.add (Units.Dims.sub Jd Kd) Td)) := by
+  simp only [mobilityU, UV.mk, UVL.mul_def, UVL.div_def, UVL.dec_def, UV.div, UV.mul, UV.si, NumReal.dec_eq]
+  congr 2
+  rw [div_mul_div_comm]
+  congr 1 <;> ring
+
 end ChemModel.PhysProps
